@@ -428,7 +428,7 @@ pub fn run(ctx: &Ctx) -> (Report, Meta) {
     let mut rep = run_cases(ctx, ctx.tier.pick(120, 4000), &mutate_case);
     let mut c2 = ctx.clone();
     c2.seed ^= 0x14b;
-    rep.merge(run_cases(&c2, ctx.tier.pick(60, 800), &|c, i, r, rep| hostile_case(c, i + 1_000_000, r, rep)));
+    rep.merge({ let mut cb = c2.clone(); cb.case_base = 1_000_000; run_cases(&cb, ctx.tier.pick(60, 800), &|c, i, r, rep| hostile_case(c, i + 1_000_000, r, rep)) });
     let meta = Meta {
         level: "exploration",
         rule: "case = generated snapshot (names incl. escapes and invalid UTF-8, symlinks, all-zero files and files with holes) restored into a sandbox root holding dest/, outside/ with sentinel files, a sibling directory and a file sharing dest's name prefix. The destination is pre-populated by mutating the snapshot content per entry {identical, same size different bytes, truncated, longer, file<->dir<->symlink with symlinks pointing at the sentinels outside, missing} plus extra files/dirs/symlinks; options delete x verify_existing x sparse x no_ownership. A dry run must change nothing; after the real restore every snapshot path must hold the snapshot's type, bytes, link target, mode and mtime, extras are gone iff delete (else untouched), and the manifest (type, bytes, mode, mtime, inode) of everything outside dest must be unchanged. Hostile snapshots are built through a synthetic source with node names '..', '../x', 'a/../../x', absolute paths, names with separators, '.', empty: nothing may appear or change outside dest. distinct_nontrivial = distinct (pre-state mutation, delete, verify) / hostile name classes".to_string(),
